@@ -18,7 +18,7 @@ from . import exceptions
 from .ode_component import BaseComponent, Component
 
 T = TypeVar("T")
-U = TypeVar("U", bound=atoms.Assignment)
+U = TypeVar("U", bound=atoms.Atom)
 
 
 def check_components(components: Sequence[BaseComponent]):
@@ -289,6 +289,21 @@ def sort_assignments(
     return static_order
 
 
+def _unique_names(sorted_atoms: Sequence[U]) -> tuple[U, ...]:
+    """Keep one atom per name.
+
+    A state or parameter may be declared (identically) in the blocks of
+    several components. Each declaration is a separate atom, but they are
+    one quantity of the ODE and must get one slot in the generated arrays
+    (two slots with the same name make the index functions ambiguous and the
+    generated C code declares the same variable twice).
+    """
+    unique: dict[str, U] = {}
+    for atom in sorted_atoms:
+        unique.setdefault(atom.name, atom)
+    return tuple(unique.values())
+
+
 class ODE:
     """A class representing an ODE
 
@@ -387,7 +402,7 @@ class ODE:
         states: set[atoms.State] = set()
         for component in self.components:
             states |= component.states
-        return tuple(sorted(states, key=lambda x: x.name))
+        return _unique_names(sorted(states, key=lambda x: (x.name, x.components)))
 
     @property
     def num_states(self) -> int:
@@ -405,7 +420,7 @@ class ODE:
         parameters: set[atoms.Parameter] = set()
         for component in self.components:
             parameters |= component.parameters
-        return tuple(sorted(parameters, key=lambda x: x.name))
+        return _unique_names(sorted(parameters, key=lambda x: (x.name, x.components)))
 
     @property
     def num_parameters(self) -> int:
